@@ -66,7 +66,7 @@ def prepare(prop, tier):
 
 
 # ----------------------------------------------------------------------------
-def _gen_points(t, dim, n, scale, origin, kind, hbase):
+def _gen_points(t, dim, n, scale, origin, kind, hbase, line_axis=None):
     pts = []
 
     def coord(v):
@@ -90,6 +90,8 @@ def _gen_points(t, dim, n, scale, origin, kind, hbase):
         # on a line along one coordinate axis (the structure is then one cell thick in the others) or along a diagonal
         ax = t.int(0, dim - 1)
         diag = t.bool(0.3)
+        if line_axis is not None:
+            ax, diag = line_axis, False
         for _ in range(n):
             s = t.unit()
             p = [origin[0], origin[1], origin[2]]
@@ -140,10 +142,14 @@ def gen(t, prop, tier):
     # (C01) some arrays hold Remote / Ghost tagged particles, as a parallel run or a domain manager leaves them behind:
     # they are sources and destinations like any other particle
     tagged = (prop == 'C01' and t.bool(0.3))
+    # now and then everything lies on one line along a coordinate axis: the whole structure is one cell thick elsewhere
+    line_axis = t.int(0, dim - 1) if (dim > 1 and t.bool(0.05)) else None
     for a in range(narr):
         n = t.wchoice([(0, 2 if narr > 1 else 1), (1, 1), (2, 1), (5, 2), (12, 3), (40, 4), (90, 2), (150, 1)])
         kind = t.wchoice([('uniform', 5), ('clustered', 3), ('lattice', 3), ('collinear', 1), ('coincident', 1)])
-        pts = _gen_points(t, dim, n, scale, origin, kind, hbase)
+        if line_axis is not None:
+            kind = 'collinear'
+        pts = _gen_points(t, dim, n, scale, origin, kind, hbase, line_axis)
         rows = []
         for p in pts:
             if hvar == 'const':
